@@ -137,6 +137,10 @@ func (s *Stream) String() string {
 		n = []int{253, 254, 255, 256, 300}[int(k>>8)%5]
 	case k%20 < 4:
 		n = 0
+	case k%20 == 5:
+		// one of two pairs of different strings with the same 32-bit string hash: texts that are identified by their hash
+		// somewhere (intern tables, caches) meet their twin within a run
+		return gen.HashTwins[int(k>>8)%4]
 	default:
 		n = 1 + int(k>>8)%14
 	}
